@@ -66,7 +66,9 @@ fn check_subset(ctx: &mut Ctx, node: &Common, dropped: &[bool], label: &str) -> 
         // droppable mark only on media the application asked to be droppable
         match &p.want {
             Want::Media { type_id, msid, ts, len, hash, droppable } => {
-                if p.droppable != *droppable {
+                // "set only on media the application asked to be droppable": one direction; a
+                // session may decline to mark (say, a sequence header) without breaking anything
+                if p.droppable && !*droppable {
                     return Err(Violation::new(
                         format!("{}/transcript/droppable-mark", prop),
                         format!("{} session, packet #{}: can_be_dropped={} but the application passed {}", node.name, i, p.droppable, droppable),
@@ -76,6 +78,20 @@ fn check_subset(ctx: &mut Ctx, node: &Common, dropped: &[bool], label: &str) -> 
                     return Err(Violation::new(
                         format!("{}/transcript/media-mismatch", prop),
                         format!("{} session, packet #{} (drop subset '{}'): application sent type {} msid {} ts {} len {}, a conformant peer decodes [{}]", node.name, i, label, type_id, msid, ts, len, m.brief()),
+                    ));
+                }
+            }
+            Want::MediaOn { type_id, msids, ts, len, hash, droppable } => {
+                if p.droppable && !*droppable {
+                    return Err(Violation::new(
+                        format!("{}/transcript/droppable-mark", prop),
+                        format!("{} session, packet #{}: can_be_dropped={} but the application passed {}", node.name, i, p.droppable, droppable),
+                    ));
+                }
+                if m.type_id != *type_id || !msids.contains(&m.msid) || m.ts != *ts || m.payload.len() != *len || payload_hash(&m.payload) != *hash {
+                    return Err(Violation::new(
+                        format!("{}/transcript/media-mismatch", prop),
+                        format!("{} session, packet #{} (drop subset '{}'): application sent type {} on one of {:?} ts {} len {}, a conformant peer decodes [{}]", node.name, i, label, type_id, msids, ts, len, m.brief()),
                     ));
                 }
             }
